@@ -9,7 +9,8 @@ def run(ctx):
     RR.priorities(ctx, "R08.a")
     RR.scores_iter_in_order(ctx, "R08.a")
     RR.directions(ctx, "R08.b", comps)
-    RR.rating_confinement(ctx, "R08.c")
+    RR.rating_confinement(ctx, "R08.c", injective=False)
+    RR.rating_monotone(ctx, "R08.c")
     RR.function_classes(ctx, "R08.d")
     RR.words_exclude_function(ctx, "R08.e")
     RL.maps_before_function_words(ctx, "R08.f")
